@@ -139,6 +139,37 @@ declarations:
   - decl: Box()
   - decl: T get()
 """
+# enumerations as the declarations that carry the override
+FUNCS_ENUM = """\
+library: Sel
+cxx_header: sel.hpp
+declarations:
+- decl: enum alphaone { ALPHAONE_A, ALPHAONE_B }
+- decl: enum betatwo { BETATWO_A = 3 }
+- decl: enum gammathree { GAMMATHREE_A, GAMMATHREE_B = 7 }
+- decl: enum deltafour { DELTAFOUR_A }
+- decl: int keep(int a)
+"""
+# instantiations of a function template as the declarations that carry the override
+FUNCS_FTMPL = """\
+library: Sel
+cxx_header: sel.hpp
+declarations:
+- decl: template<typename T> void work(T v)
+  cxx_template:
+  - instantiation: <int>
+    format:
+      template_suffix: _alphaone
+  - instantiation: <long>
+    format:
+      template_suffix: _betatwo
+  - instantiation: <double>
+    format:
+      template_suffix: _gammathree
+  - instantiation: <float>
+    format:
+      template_suffix: _deltafour
+"""
 # namespaces as the declarations that carry the override
 FUNCS_NSV = """\
 library: Sel
@@ -330,23 +361,25 @@ def run(ctx):
     # ---- (b) per-declaration overrides
     names = ["alphaone", "betatwo", "gammathree"]
     for lang in LANGS:
-        for libdefault, nested in ((True, False), (False, False), (False, True), (True, True), (False, 2), (True, 2), (True, "flat"), (False, "flat"), (True, "flat2"), (True, "class"), (False, "class"), (True, "nsv"), (False, "nsv"), (True, "tmpl"), (False, "tmpl")):
+        for libdefault, nested in ((True, False), (False, False), (False, True), (True, True), (False, 2), (True, 2), (True, "flat"), (False, "flat"), (True, "flat2"), (True, "class"), (False, "class"), (True, "nsv"), (False, "nsv"), (True, "tmpl"), (False, "tmpl"), (True, "enum"), (False, "enum"), (True, "ftmpl"), (False, "ftmpl")):
             allflags = list(itertools.product(["inherit", True, False], repeat=3))
             if nested and quick:
                 allflags = allflags[::3]
             for flags in allflags:
-                if nested in ("class", "nsv", "tmpl"):
-                    d = copy.deepcopy(yaml.safe_load(FUNCS_CLS if nested == "class" else FUNCS_NSV if nested == "nsv" else FUNCS_TMPL))
+                if nested in ("enum", "ftmpl") and lang == "lua":
+                    continue  # the Lua wrapper has no enumerations and no function templates
+                if nested in ("class", "nsv", "tmpl", "enum", "ftmpl"):
+                    d = copy.deepcopy(yaml.safe_load({"class": FUNCS_CLS, "nsv": FUNCS_NSV, "tmpl": FUNCS_TMPL, "enum": FUNCS_ENUM, "ftmpl": FUNCS_FTMPL}[nested]))
                     opts = d.setdefault("options", {})
                     for l2 in LANGS:
                         opts["wrap_" + l2] = True
                     opts["wrap_" + lang] = libdefault
                     if lang == "c":
                         opts["wrap_fortran"] = False
-                    for fdecl, fl in zip(d["declarations"] if nested != "tmpl" else d["declarations"][0]["cxx_template"], flags):
+                    for fdecl, fl in zip(d["declarations"] if nested not in ("tmpl", "ftmpl") else d["declarations"][0]["cxx_template"], flags):
                         if fl != "inherit":
                             fdecl.setdefault("options", {})["wrap_" + lang] = fl
-                    add(("decl", lang, libdefault, flags, "tmpl" if nested == "tmpl" else False), d)
+                    add(("decl", lang, libdefault, flags, nested if nested in ("tmpl", "enum", "ftmpl") else False), d)
                     continue
                 flat = nested in ("flat", "flat2")
                 if flat:
@@ -462,7 +495,8 @@ def run(ctx):
         elif tag[0] == "decl":
             _, lang, libdefault, flags, flat = tag
             # in a flattened namespace the Fortran name carries the namespace
-            fname = (lambda n: "box_" + n) if (flat == "tmpl" and lang == "fortran") else (lambda n: "nsx_" + n) if (flat and lang == "fortran") else (lambda n: n)
+            fname = ((lambda n: "box_" + n) if (flat == "tmpl" and lang == "fortran") else (lambda n: n + "_a") if (flat == "enum" and lang == "fortran") else
+                     (lambda n: "work_" + n) if (flat == "ftmpl" and lang == "fortran") else (lambda n: "nsx_" + n) if (flat and lang == "fortran") else (lambda n: n))
             for nm, fl in zip(names, flags):
                 on = libdefault if fl == "inherit" else fl
                 seen = appears(fname(nm), lang, r["content"])
